@@ -123,6 +123,7 @@ def check(run, replay):
     # ---- streams 5-9: how suppressions are given
     parse_streams(run, model, vh, quick)
     pairing_stream(run, model, vh, quick)
+    dispatch_stream(run, model, vh, quick)
     documented_forms(run)
 
 
@@ -193,6 +194,35 @@ def pairing_stream(run, model, vh, quick):
                               "begin/end pairing: model %s bad + %s, preprocessor %s bad + %s" % (vlib.show(m[:1]), vlib.show(mb), vlib.show(i[:1]), vlib.show(ib)),
                               {"source": src.decode("latin-1"), "model": vlib.show(m), "impl": vlib.show(i),
                                "how": "echo <hex of source> | build/harness/vh_c23 inlsup"})
+
+
+def dispatch_stream(run, model, vh, quick):
+    """parseInlineSuppressionCommentToken: model (Supp/DispatchDefs.v) vs the preprocessor on
+    'void f(void) {' / <comment> / '    x;' / '}' (comment on its own line, code before and after)"""
+    import hashlib
+    rng = run.rng
+    stream = "parseInlineSuppressionCommentToken (comment after code, before code)"
+    n = 3000 if quick else 80000
+    cs = list(dict.fromkeys(G.gen_dispatch(rng) for _ in range(n)))
+    rc1, mo, me = vlib.run_lines([model], [vlib.enc_case(["disp", c]) for c in cs])
+    rc2, io, ie = vlib.run_lines([vh, "inlsup"], [vlib.enc_case([b"void f(void) {\n" + c + b"\n    x;\n}\n"]) for c in cs])
+    if rc1 != 0 or len(mo) != len(cs) or len(io) != len(cs):
+        raise vlib.BuildError("dispatch stream failed: %s %s" % (me[-300:], ie[-300:]))
+    shown = 0
+    for c, a, b in zip(cs, mo, io):
+        m, i = vlib.dec_line(a), vlib.dec_line(b)
+        ii = i[:1] + [x for k in range(1, len(i), 7) for x in (i[k], i[k + 1], i[k + 2])]
+        placed = all(i[k + 3] == b"3" and i[k + 6] == b"0" for k in range(1, len(i), 7))
+        ok = m == ii and placed
+        run.count(stream, None, nontrivial=c, bucket="bad%s,added%d" % (m[0].decode(), (len(m) - 1) // 3))
+        if not ok:
+            run.stream(stream)["disagreements"] += 1
+            shown += 1
+            if shown <= 2:
+                run.violation("dispatch:" + hashlib.sha1(c).hexdigest()[:12],
+                              "inline comment %r: model %s, preprocessor %s" % (c, vlib.show(m), vlib.show(i)),
+                              {"comment": vlib.show(c), "model": vlib.show(m), "impl": vlib.show(i),
+                               "how": "build/harness/vh_c23 inlsup on the 4-line source (hex encoded)"})
 
 
 def documented_forms(run):
